@@ -296,7 +296,10 @@ impl DepthFirstSearch {
                             || self.max_solutions == 1
                             || self.solutions.len() >= self.max_solutions
                         {
-                            return true; // keep changes
+                            // keep changes; close this candidate's frame so that
+                            // enclosing frames stay aligned and can still revert it
+                            facts.commit_undo_frame();
+                            return true;
                         }
 
                         // Otherwise (max_solutions > 1 and not enough yet), rollback and continue
@@ -328,7 +331,9 @@ impl DepthFirstSearch {
                                         || self.max_solutions == 1
                                         || self.solutions.len() >= self.max_solutions
                                     {
-                                        return true; // keep changes
+                                        // keep changes (see above)
+                                        facts.commit_undo_frame();
+                                        return true;
                                     }
 
                                     // Otherwise, rollback and continue searching
